@@ -8,6 +8,8 @@ package main
 //            and test-scope snapshots; every tag map handed to the API is
 //            checked for not having been written to and is then mutated by
 //            the harness (caller-map aliasing: harness-only clause);
+//            in part of the cases the caller also takes snapshots and writes into the
+//            tag maps of their entries: later deliveries and snapshots must not change;
 //   collide  two keys of one map that the sanitizer maps to the same key: the
 //            delivered value must be one of the candidates (not sent to the model);
 //   delims   witnesses of F05b seen through names and tags.
@@ -91,6 +93,32 @@ func c04Gen(r *Rng, i int) dCase {
 	chain(0, r.Intn(7))
 	for b := r.Intn(3); b > 0; b-- { // branches from earlier scopes
 		chain(r.Intn(nScopes+1), r.Intn(4))
+	}
+	// "the tags delivered for one scope never change over its lifetime": the caller takes
+	// snapshots (every root is a tally.TestScope) and writes into the tag maps of their entries
+	// (deletes a tag, overwrites values, adds a tag); the scopes stay in use afterwards, and at the
+	// end every metric is used once more
+	// (these choices are drawn from a generator seeded by the case itself, so that the cases of
+	// all streams stay what they were before this clause was exercised)
+	var hs uint64 = 1469598103934665603
+	for _, b := range []byte(hashOf(c)) {
+		hs = (hs ^ uint64(b)) * 1099511628211
+	}
+	r = NewRng(hs)
+	if r.Chance(45) {
+		for k := r.Range(1, 2); k > 0; k-- {
+			first := -1
+			for j, op := range c.Ops {
+				if op.Op == "met" {
+					first = j
+					break
+				}
+			}
+			at := r.Range(first+1, len(c.Ops))
+			ops := append([]dOp(nil), c.Ops[:at]...)
+			ops = append(ops, dOp{Op: "snap", Kind: r.Intn(3)})
+			c.Ops = append(ops, c.Ops[at:]...)
+		}
 	}
 	return c
 }
